@@ -18,3 +18,27 @@ Definition xd_argv_of_item (named : bool) (it : xj_item) : list bstr :=
   | _ => xj_argv_of_item named it
   end.
 Definition xd_render_argv (named : bool) (j : list xj_item) : list bstr := flat_map (xd_argv_of_item named) j.
+
+(* ---- the password options are optional ("[--user-password=user-password] [--owner-password=owner-password]"): a password option
+   that is left out stands for the empty password *)
+Definition xd_pw_word (flag v : bstr) : list bstr :=
+  match v with [] => [] | _ => [B"--" ++ flag ++ 61 :: v] end.
+
+Definition xo_enc_argv (u o bits : bstr) (l : list (aentry * bstr)) : list bstr :=
+  B"--encrypt" :: xd_pw_word B"user-password" u ++ xd_pw_word B"owner-password" o ++
+  (B"--bits=" ++ bits) :: map (fun p => word_of (fst p) (snd p)) l ++ [B"--"].
+
+Definition xo_argv_of_item (named : bool) (it : xj_item) : list bstr :=
+  match it with
+  | XjBase (IEncrypt u o bits l) => xo_enc_argv u o bits l
+  | _ => xj_argv_of_item named it
+  end.
+Definition xo_render_argv (named : bool) (j : list xj_item) : list bstr := flat_map (xo_argv_of_item named) j.
+
+(* the number of encryption requests of a job (job JSON has one key "encrypt") *)
+Fixpoint xo_count_enc (j : list xj_item) : nat :=
+  match j with
+  | [] => O
+  | XjBase (IEncrypt _ _ _ _) :: r => S (xo_count_enc r)
+  | _ :: r => xo_count_enc r
+  end.
